@@ -82,7 +82,8 @@ def handle (j : Json) : Except String Json := do
   | "compile" =>
     let rs := (allNTs G cap).map (fun x =>
       Json.arr #[Json.str (ntName x), Json.arr ((rulesOf G cap x).map jRhs).toArray])
-    return Json.mkObj [("rules", Json.arr rs.toArray), ("epscycle", Json.bool (hasEpsCycle (compile G cap)))]
+    return Json.mkObj [("rules", Json.arr rs.toArray), ("epscycle", Json.bool (hasEpsCycle (compile G cap))),
+      ("leftcycle", Json.bool (hasLeftCycle (compile G cap)))]
   | "parse" =>
     let start ← j.getObjValAs? String "start"
     let pol ← policyOf (← j.getObjValAs? String "policy")
@@ -114,7 +115,7 @@ def handle (j : Json) : Except String Json := do
     let forest := (m.out.flatMap collapse).map jTree
     return Json.mkObj [("status", Json.str status), ("steps", Json.num (JsonNumber.fromNat steps)),
       ("cols", Json.arr cols.toArray), ("forest", Json.arr forest.toArray),
-      ("epscycle", Json.bool (hasEpsCycle c.rules)),
+      ("epscycle", Json.bool (hasEpsCycle c.rules)), ("leftcycle", Json.bool (hasLeftCycle c.rules)),
       ("nrules", Json.num (JsonNumber.fromNat c.rules.length))]
   | _ => throw s!"unknown op {op}"
 
